@@ -131,3 +131,41 @@ def e2e(params):
         exc = f"{type(e).__name__}: {str(e)[:60]}"
     bad = check_threshold_matcher(cands, thr, metric, many, lm, exc)
     return {"violated": bool(bad), "clauses": bad, "labelmap": lm, "exception": exc}
+
+
+def scorer(params):
+    """the real candidate scorer against the specification: the overlapping (ref, pred) pairs, each once, with the metric value of that
+    pair, best first in the metric's direction"""
+    serial_pools()
+    from panoptica._functionals import _calc_matching_metric_of_overlapping_labels
+    from panoptica.metrics import Metric
+    from spec import pipeline as SP
+    mname = params.get("metric", "IOU")
+    rng = np.random.RandomState(3)
+    bad = []
+    for _ in range(60):
+        nd = rng.randint(1, 4)
+        shape = tuple(rng.randint(3, 7, size=nd))
+        pred = (rng.rand(*shape) < 0.6) * rng.randint(1, 4, size=shape)
+        ref = (rng.rand(*shape) < 0.6) * rng.randint(1, 4, size=shape)
+        pred, ref = pred.astype(np.uint8), ref.astype(np.uint8)
+        if not ref.any():
+            continue
+        got = _calc_matching_metric_of_overlapping_labels(pred, ref, tuple(np.unique(ref[ref != 0])), Metric[mname])
+        P, Rr = SM.instances(pred), SM.instances(ref)
+        want = {(r, p): float(SM.metric(mname, Rr[r], P[p], nd)) for r in Rr for p in P if Rr[r] & P[p]}
+        gotd = {(int(r), int(p)): float(s) for s, (r, p) in got}
+        if len(gotd) != len(got):
+            bad.append(f"a pair is listed twice: {got}")
+        elif set(gotd) != set(want):
+            bad.append(f"pairs {sorted(gotd)} expected (ref, pred) pairs {sorted(want)}")
+        elif any(abs(gotd[k] - want[k]) > 1e-9 for k in want):
+            bad.append(f"scores {gotd} expected {want}")
+        else:
+            sc = [float(s) for s, _ in got]
+            if any(not SM.better_eq(mname, a, b) for a, b in zip(sc, sc[1:])):
+                bad.append(f"{mname} scores not best-first: {sc}")
+        if bad:
+            bad[-1] = {"pred": pred.tolist(), "ref": ref.tolist(), "problem": bad[-1][:300]}
+            break
+    return {"violated": bool(bad), "problems": bad[:2]}
